@@ -7,6 +7,7 @@ import os
 import vlib
 import wirelib
 import srvlib
+import mainlib
 from wirelib import WIRE
 
 BITS = [5, 6, 6, 7]
@@ -281,7 +282,7 @@ def extraction_stage(rep, ctx):
 
 
 def check(rep):
-    ctx = vlib.prepare(rep, harnesses={'wire': WIRE, 'srv': srvlib.SRV}, sanitize=(rep.tier == 'thorough'), model='WIRE')
+    ctx = vlib.prepare(rep, harnesses={'wire': WIRE, 'srv': srvlib.SRV, 'climain': mainlib.CLIMAIN}, sanitize=(rep.tier == 'thorough'), model='WIRE')
     cases, meta, stats = gen_cases(rep.seed, rep.tier)
     rep.cov['rule'] = ('corpus first; every hostname limit L in 100..255 x domain lengths 3..min(128,L-24) (thorough: all; quick: '
                        'boundaries + 6 random) x 4 codecs, one builder each (data chunk, ping/login/version/set-fragsize packet, '
@@ -321,6 +322,7 @@ def check(rep):
             ctx.broken.append(('correspondence', 'model and implementation disagree on case %r: impl=%r model=%r' % (
                 sub[d][:300], impl2[d][-400:], mod[d][-400:])))
     extraction_stage(rep, ctx)
+    mainlib.maxlen_stage(rep, ctx)
     if not rep.violations:
         ctx.report_broken()
     return rep
